@@ -9,6 +9,8 @@ from ..core import call_attr, calls_in, dotted, kwarg, norm, slice_parts, text, 
 from . import c09
 
 EXPLANATION = [
+    'C07.pdu-forwarded: in ChannelManager.on_pdu every path on which the destination channel was found hands the PDU to channel.on_pdu: the dispatcher applies no size filter (MPS is a per-direction limit that the channel itself accounts for together with the credits).',
+    'C07.identifier-range: (shared with C09.identifier-range) ChannelManager.next_identifier stays within 1..255 by induction over its paths: the credit frames of a long transfer never carry an identifier that does not fit the one-byte field.',
     'C07.credit-ledger: every normal exit of LeCreditBasedChannel.on_credits has added the received amount to the balance and called process_output() (path rule): no state test can discard returned credits.',
     'C07.integer-arithmetic: no true division in the anchored modules: sizes and budgets are integers (a fractional budget admits one entry too many).',
     'C07.fifo: every deque of the anchored modules that is filled with append / extend is emptied with popleft or by iteration (never pop()), and conversely: queued entries come out in the order they went in.',
@@ -407,7 +409,19 @@ def credit_ledger(ctx):
             'on_credits can return without adding the received credits (or without resuming output): a channel on which that path is taken spends its initial credits and then stalls for ever', p.loc(fn), bad[:2])
 
 
+def identifier_range_rule(ctx):
+    from .c09 import signalling_identifier
+    signalling_identifier(ctx, 'C07.identifier-range')
+
+
+def pdu_forwarded(ctx):
+    from .c05 import fragment_forwarded
+    fragment_forwarded(ctx, 'C07.pdu-forwarded', 'bumble.l2cap.ChannelManager.on_pdu', 'channel', 'channel.on_pdu')
+
+
 RULES = [
+    ('C07.pdu-forwarded', pdu_forwarded),
+    ('C07.identifier-range', identifier_range_rule),
     ('C07.credit-ledger', credit_ledger),
     ('C07.integer-arithmetic', integer_arithmetic_rule),
     ('C07.fifo', fifo_rule),
